@@ -264,7 +264,7 @@ impl AdvancedRangeCoalescer {
                     current_range = Some(range);
                 }
                 Some(mut current) => {
-                    let gap = range.start.saturating_sub(current.end + 1);
+                    let gap = range.start.saturating_sub(current.end.saturating_add(1));
 
                     // Coalesce if gap is within threshold and total size is reasonable
                     if gap <= dynamic_threshold {
